@@ -25,6 +25,41 @@ class _Object:
         return {'Body': _Body(self.store.objects[(self.bucket, self.key)])}
 
 
+class _ObjectSummary:
+    def __init__(self, store, bucket, key):
+        self.store, self.bucket_name, self.key = store, bucket, key
+
+    def get(self):
+        return _Object(self.store, self.bucket_name, self.key).get()
+
+
+class _ObjectCollection:
+    def __init__(self, store, bucket):
+        self.store, self.bucket = store, bucket
+
+    def _keys(self, prefix=''):
+        pages = self.store.pages.get(self.bucket)
+        if pages is None:
+            pages = [sorted(k for (b, k) in self.store.objects if b == self.bucket)]
+        return [k for page in pages for k in page if k.startswith(prefix)]
+
+    def filter(self, Prefix='', **kw):   # noqa: N803
+        self.store.lists.append((self.bucket, Prefix))
+        return [_ObjectSummary(self.store, self.bucket, k) for k in self._keys(Prefix)]
+
+    def all(self):
+        return self.filter()
+
+
+class _Bucket:
+    def __init__(self, store, name):
+        self.name = name
+        self.objects = _ObjectCollection(store, name)
+
+    def Object(self, key):   # noqa: N802
+        return _Object(self.objects.store, self.name, key)
+
+
 class _Resource:
     def __init__(self, store):
         self.store = store
@@ -32,12 +67,15 @@ class _Resource:
     def Object(self, bucket, key):   # noqa: N802 (boto3 name)
         return _Object(self.store, bucket, key)
 
+    def Bucket(self, name):   # noqa: N802
+        return _Bucket(self.store, name)
+
 
 class _Paginator:
     def __init__(self, store):
         self.store = store
 
-    def paginate(self, Bucket, Prefix=''):   # noqa: N803 (boto3 names)
+    def paginate(self, Bucket, Prefix='', **kw):   # noqa: N803 (boto3 names)
         self.store.lists.append((Bucket, Prefix))
         pages = self.store.pages.get(Bucket)
         if pages is None:
@@ -60,8 +98,13 @@ class _Client:
         self.store = store
 
     def get_paginator(self, name):
-        assert name == 'list_objects', name
+        # both listing calls page through 'Contents' in the same way
+        if name not in ('list_objects', 'list_objects_v2'):
+            raise NotImplementedError(f'fake S3: paginator {name!r}')
         return _Paginator(self.store)
+
+    def get_object(self, Bucket, Key, **kw):   # noqa: N803
+        return _Object(self.store, Bucket, Key).get()
 
 
 class FakeS3:
@@ -78,8 +121,24 @@ class FakeS3:
         self.objects[(bucket, key)] = text.encode('utf-8') if isinstance(text, str) else text
 
     def install(self, ns):
-        ns.s3mod.s3._client = _Client(self)
-        ns.s3mod.s3._resource = _Resource(self)
+        """Put the fakes wherever the library may reach S3 from: the lazily built slots of utils.s3.s3
+        (if they exist) and the boto3 factories as seen from mosromgr.utils.s3."""
+        store = self
+
+        class _Boto3:
+            @staticmethod
+            def client(name, *a, **kw):
+                return _Client(store)
+
+            @staticmethod
+            def resource(name, *a, **kw):
+                return _Resource(store)
+        ns.s3mod.boto3 = _Boto3
+        handle = getattr(ns.s3mod, 's3', None)
+        if handle is not None:
+            for slot, fake in (('_client', _Client(self)), ('_resource', _Resource(self))):
+                if hasattr(handle, slot):
+                    setattr(handle, slot, fake)
 
 
 # ------------------------------------------------------------------ message pool for sequences
